@@ -145,8 +145,8 @@ def search_graphs(ctx):
     ctx.extra['exhaustive_space'] = ('all dependency graphs on <= 3 formula columns in fresh engines and all 65536 graphs '
                                      'on 4 columns through ModifyColumn steps, 2 rows, engine order + one random permutation')
   else:
-    todo.extend(ctx.rng.sample(g3, 50))
-    for _ in range(50):
+    todo.extend(ctx.rng.sample(g3, 35))
+    for _ in range(35):
       todo.append(tuple(tuple(j for j in range(4) if ctx.rng.random() < 0.4) for _i in range(4)))
   for graph in todo:
     _exp, cyc = graph_expected(graph, dvals)
@@ -374,12 +374,12 @@ def search_sequences(ctx):
                    'family': 'single-change:n%d' % n})
   if ctx.tier == 'thorough':
     ctx.extra['exhaustive_sequences'] = 'all graphs on <= 3 formula columns x all single-column formula changes'
-  for _ in range(ctx.n(30, 1500)):
+  for _ in range(ctx.n(20, 1500)):
     n = ctx.rng.choice([2, 3, 3, 4, 4])
     graph, steps = gen_cycle_sequence(ctx.rng, n)
     jobs.append({'stream': 'seq', 'graph': [list(x) for x in graph], 'd': dvals, 'steps': steps,
                  'pseed': ctx.rng.choice([None, ctx.rng.randrange(1 << 30)]), 'family': 'cycle-break:n%d' % n})
-  for _ in range(ctx.n(15, 600)):
+  for _ in range(ctx.n(8, 600)):
     n = ctx.rng.choice([2, 3, 4])
     graph = tuple(tuple(j for j in range(n) if ctx.rng.random() < 0.4) for _i in range(n))
     steps = []
